@@ -9,10 +9,17 @@ fn main() {
         std::process::exit(2);
     }
     let (comp, mode, rest) = (args[0].as_str(), args[1].as_str(), &args[2..]);
-    let _ = (mode, rest);
     match comp {
+        "job" => h::job::main(mode, rest),
+        "alloc" => h::alloc::main(mode, rest),
+        "autoalloc" => h::autoalloc::main(mode, rest),
+        "stream" => h::stream::main(mode, rest),
+        "auth" => h::auth::main(mode, rest),
+        "journal" => h::journal::main(mode, rest),
+        "core" => h::core::main(mode, rest),
+        "worker" => h::worker::main(mode, rest),
+        "sched" => h::sched::main(mode, rest),
         _ => {
-            let _ = h::util::Rng::new(0);
             eprintln!("unknown component {comp}");
             std::process::exit(2);
         }
